@@ -135,6 +135,7 @@ def run(chk: lib.Check):
     n_layouts = 8 if quick else 40
     stats = collections.Counter()
     qcases = []
+    ccases = []
     for spec0 in specs[: (1 if quick else 4)]:
         mono = corpus.load(spec0)
         src = pathlib.Path(spec0["path"]).parent
@@ -242,6 +243,15 @@ def run(chk: lib.Check):
                         except Exception as ex:  # noqa: BLE001
                             exp.append(err_of(ex))
                 qcases.append(([False, frs, [], [], hs], [[], [], exp]))
+                # ... and its children (placeholders followed through the id index)
+                cexp = []
+                for u in sorted(focus)[:30]:
+                    if u in by_id:
+                        try:
+                            cexp.append([A.H(c) for c in frag._loader.iterchildren_xt(by_id[u]) if isinstance(c.tag, str)])
+                        except Exception as ex:  # noqa: BLE001
+                            cexp.append(err_of(ex))
+                ccases.append(([False, frs, hs], cexp))
                 # a UUID in use in ANOTHER fragment must be refused for a new object, exactly as in the single-file model
                 try:
                     import histories
@@ -308,6 +318,7 @@ def run(chk: lib.Check):
                 chk.samples.append({"picks": picks})
         del mono
     chk.correspond("From V Require Import Model.Graph.", "w_queries", qcases, tag="C06_anc", shard=1, timeout=900)
+    chk.correspond("From V Require Import Model.Graph.", "w_children", ccases, tag="C06_chi", shard=1, timeout=900)
     chk.coverage.update({"stats": dict(stats),
                          "rule": "1-3 (also nested) subtree roots per layout, rotating over every element type that has children, fragment files at several "
                                  "directory locations (space, %, non-ASCII); parent chain / children / descendant count / xtype for the fragment roots, their "
